@@ -26,7 +26,7 @@ MAXT = 5  # table names T0..T4 are dropped before every case
 # abstract syntax -> driver tokens / SQL
 # ------------------------------------------------------------------------------------------------
 # val: None | int;  opnd: ("C", i) | ("L", val);  expr: opnd | ("A", i, k)
-# pred: ("k", "t|f|u") | ("c", opnd, op, opnd) | ("n", opnd) | ("nn", opnd) | ("&", p, q) | ("or", p, q) | ("!", p)
+# pred: ("k", "t|f|u") | ("c", opnd, op, opnd) | ("n", opnd) | ("nn", opnd) | ("e", opnd, opnd) | ("&", p, q) | ("or", p, q) | ("!", p)
 # stmt: ("I", t, cols|None, src) | ("U", t, [(col, expr)], pred|None) | ("D", t, pred|None) | ("T", t)
 # src: ("V", w, rows) | ("S", s, proj|None, pred|None)
 
@@ -48,6 +48,8 @@ def tpred(p):
         return ["c", *texpr(p[1]), p[2], *texpr(p[3])]
     if k in ("n", "nn"):
         return [k, *texpr(p[1])]
+    if k == "e":
+        return ["e", *texpr(p[1]), *texpr(p[2])]
     if k in ("&", "or"):
         return [k, *tpred(p[1]), *tpred(p[2])]
     return ["!", *tpred(p[1])]
@@ -113,6 +115,14 @@ def spred(rnd, p):
         return f"{sexpr(rnd, p[1])} {kw(rnd, 'is null')}"
     if k == "nn":
         return f"{sexpr(rnd, p[1])} {kw(rnd, 'is not null')}"
+    if k == "e":   # NULL-safe equality in its three spellings
+        a, b = sexpr(rnd, p[1]), sexpr(rnd, p[2])
+        m = rnd.randrange(3)
+        if m == 0:
+            return f"{kw(rnd, 'equal_null')}({a}, {b})"
+        if m == 1:
+            return f"{a} {kw(rnd, 'is not distinct from')} {b}"
+        return f"{kw(rnd, 'not')} ({a} {kw(rnd, 'is distinct from')} {b})"
     if k == "&":
         return f"({spred(rnd, p[1])}) {kw(rnd, 'and')} ({spred(rnd, p[2])})"
     if k == "or":
@@ -160,6 +170,8 @@ def gpred(rnd, arity, depth=0):
             return ("k", rnd.choice("tfu"))
         if q < 0.25:
             return (rnd.choice(["n", "nn"]), gopnd(rnd, arity))
+        if q < 0.45:
+            return ("e", gopnd(rnd, arity), gopnd(rnd, arity))
         return ("c", gopnd(rnd, arity), rnd.choice(list(OPS)), gopnd(rnd, arity))
     if r < 0.65:
         return ("&", gpred(rnd, arity, depth + 1), gpred(rnd, arity, depth + 1))
@@ -182,7 +194,37 @@ def gzero_pred(rnd, arity):
     return ("!", ("or", ("k", "t"), gpred(rnd, arity, 2)))
 
 
+def _and_chain(p):
+    return _and_chain(p[1]) + _and_chain(p[2]) if p[0] == "&" else [p]
+
+
+def risky(p):
+    """DuckDB 1.0.0 mis-evaluates a conjunction whose derived range for a column is empty, e.g.
+    `C0 = -1 AND C0 > C1 AND C1 >= 0` returns / deletes the row (2, 0) (known: C04/duckdb-contradictory-range-filter).  The generator keeps out of
+    that region: no AND-chain with both a column = constant atom and a column-to-column comparison (plain or under NOT)."""
+    if p is None or p[0] in ("k", "n", "nn", "e", "c"):
+        return False
+    if p[0] == "!":
+        return risky(p[1])
+    if p[0] == "or":
+        return risky(p[1]) or risky(p[2])
+    atoms = _and_chain(p)
+    cmps = [a[1] if a[0] == "!" else a for a in atoms]
+    cmps = [a for a in cmps if a[0] == "c"]
+    col_const = any(a[2] == "eq" and {a[1][0], a[3][0]} == {"C", "L"} for a in cmps)
+    col_col = any(a[1][0] == "C" and a[3][0] == "C" and a[1] != a[3] for a in cmps)
+    return (col_const and col_col) or any(risky(a) for a in atoms if a[0] in ("!", "or"))
+
+
 def gwhere(rnd, arity):
+    for _ in range(20):
+        p = _gwhere(rnd, arity)
+        if not risky(p):
+            return p
+    return None
+
+
+def _gwhere(rnd, arity):
     r = rnd.random()
     if r < 0.06:
         return None
@@ -297,6 +339,9 @@ def sweep_cases():
             out.append((tables, [("I", tgt, None, ("S", src, None, p)), ("I", tgt, [1], ("S", src, [("C", 0)], p)), ("T", tgt), ("T", tgt)]))
             if n:
                 out.append((tables, [("I", tgt, None, ("V", 2, [[1, None]] * n)), ("I", src, [1, 0], ("V", 2, [[None, 7]] * n))]))
+            # NULL-safe (in)equality against a column with NULLs: C1 is NULL on the odd rows
+            out.append((tables, [("U", src, [(0, ("A", 0, 10))], ("!", ("e", ("C", 1), ("L", n)))), ("D", src, ("!", ("e", ("L", n), ("C", 1))))]))
+            out.append((tables, [("D", src, ("or", ("e", ("C", 1), ("L", None)), ("&", ("!", ("e", ("C", 1), ("C", 0))), ("k", "u"))))]))
     return out
 
 
@@ -649,6 +694,7 @@ def _check_history(chk, case, real, reply):
     mode, nop = case.get("mode", "cursor"), bool(case.get("nop"))
     sqls = [_rename(case, q) for q in case["sqls"]]
     rcase = {"kind": "hist", "tables": case["tables"], "stmts": case["stmts"], "sqls": case["sqls"], "mode": mode, "nop": nop}
+    rcase.update({k: case[k] for k in ("known_key", "known_obs") if k in case})
     how = ("conn.execute_string" if mode == "script" else "cursor.execute") + (f", instance with nop_regexes={NOP_REGEXES}" if nop else "")
     init = [_canon_rows(rows) for _, rows in case["tables"]]
     chk.count(f"mode:{mode}{':nop_regexes' if nop else ''}")
@@ -670,6 +716,9 @@ def _check_history(chk, case, real, reply):
             break
         if "err" in ro and "sqlstate_attr" in real["obs"][i] and real["obs"][i]["sqlstate_attr"] != ro["err"][2]:
             chk.violation(f"`{sql}`: cursor.sqlstate {real['obs'][i]['sqlstate_attr']!r} after error {ro['err']}", rcase, broken="C04 correspondence (error path)")
+            break
+        if ro != so and case.get("known_key") and ro == case.get("known_obs"):
+            chk.finding(case["known_key"], f"`{sql}` on {case['tables']}: the cursor shows {ro}, SQL semantics require {so}", rcase)
             break
         if ro != so:
             what = (f"statement #{i} `{sql}` of {sqls} ({how}) on tables {['T%d=%s' % (j, t) for j, (_, t) in enumerate(case['tables'])]}: "
@@ -760,6 +809,7 @@ def _from_replay(case):
     kind = case["kind"]
     if kind == "hist":
         c = {"tables": case["tables"], "stmts": case["stmts"], "sqls": case["sqls"], "mode": case.get("mode", "cursor"), "nop": bool(case.get("nop"))}
+        c.update({k: case[k] for k in ("known_key", "known_obs") if k in case})
         c["tok"] = tcase(c["tables"], c["stmts"])
     else:
         c = {k: v for k, v in case.items() if k != "kind"}
@@ -805,7 +855,9 @@ def run(chk) -> None:
     chk.extra["statements"] = sum(len(h["stmts"]) for h in hs)
     chk.assumptions = ["values stay far from the BIGINT range (|v| <= 3 + 2 per update, histories <= 8 statements)",
                        "unquoted identifiers are ASCII (Python's str.upper is modelled by ASCII upper-casing)",
-                       "at most one rejection cause per statement (DuckDB's order of binder checks is not modelled)"]
+                       "at most one rejection cause per statement (DuckDB's order of binder checks is not modelled)",
+                       "generated WHERE clauses avoid AND-chains that combine `col = const` with a column-to-column comparison: DuckDB 1.0.0 mis-evaluates conjunctions "
+                       "whose derived range is empty (known finding C04/duckdb-contradictory-range-filter, witness in the corpus)"]
     chk.trusted += ["DuckDB DML semantics and returned count (modelled by Fs.Dml.engine: scans over lists of optional ints, 3VL)",
                     "DuckDB exception class for missing table (Catalog) / unknown or repeated column, wrong number of values (Binder)",
                     "sqlglot: depth-first first identifier of CREATE/DROP is the object's own name",
